@@ -23,6 +23,8 @@ const ASM_BODIES: &[&str] = &[
     "mov  eax,1 ; xor ebx , ebx\n\tPUSH   EAX\n\n   pop eax   // trailing  ",
     "DB 'a''b', \"x\\\"y\"\n   mov al, 0FFh\n  .NOFRAME",
     "LEA  RAX,[RIP+Foo]\r\n   CALL   @Bar\r\n     RET",
+    "mov eax,1 // x\n    // y\n  MOV ebx,2 { z }\n  // last",
+    "@@1:  // first\n\n  // own line\n  ret",
 ];
 
 struct Region {
@@ -145,7 +147,19 @@ impl Prop for C07 {
                 let gap = *rng.pick(&["\n    ", " ", "\n\n  \t", "   "]);
                 let gap2 = *rng.pick(&["\n  ", " ", "\n\n\n"]);
                 let post = if pre.starts_with("procedure P; assembler") { "end;\n" } else if pre.starts_with("begin\n  if") { "end;\nend;\n" } else { "end;\n  Y   :=  2;\nend;\n" };
-                let input = format!("{pre}{gap}{body}{gap2}{post}");
+                let mut input = format!("{pre}{gap}{body}{gap2}{post}");
+                let body_cr: String;
+                let gap_cr: String;
+                let (body, gap) = if rng.chance(1, 5) {
+                    // classic-Mac line ends: every break a lone CR
+                    input = input.replace("\r\n", "\r").replace('\n', "\r");
+                    body_cr = body.replace("\r\n", "\r").replace('\n', "\r");
+                    gap_cr = gap.replace('\n', "\r");
+                    out.count("gen.asm-cr-endings");
+                    (body_cr.as_str(), gap_cr.as_str())
+                } else {
+                    (body, gap)
+                };
                 out.count("gen.asm");
                 let Some((output, obs)) = common::run(&mut out, &cfg, &input) else { continue };
                 let nb_in = NbIndex::new(&input);
@@ -213,6 +227,12 @@ impl Prop for C07 {
             if regions.is_empty() {
                 continue;
             }
+            // one case in five with lone CRs as line breaks everywhere (multi-line tokens keep theirs)
+            let cr_layout = rng.chance(1, 5);
+            if cr_layout {
+                lay = lay.with_cr_endings();
+                out.count("gen.regions-cr-endings");
+            }
             let input = lay.render();
             let spans = lay.spans();
             out.count("gen.regions");
@@ -254,7 +274,11 @@ impl Prop for C07 {
                     out.nontrivial.push(rng::hash_combine(rng::hash_str(text), rng::hash_str(&cfg.short())));
                 }
             }
-            // outside the regions the code must be formatted
+            // outside the regions the code must be formatted (not judged on lone-CR inputs: the
+            // whitespace model does not count a lone CR as a line break, C08/C09 lone-cr-line-break)
+            if cr_layout {
+                continue;
+            }
             let p = WsParams { use_tabs: cfg.use_tabs, tab_width: cfg.tab_width, nl: cfg.nl(), check_eof: regions.iter().all(|r| r.2) };
             let issues = oracle::check_whitespace(&output, &p);
             let fb = wf::fallback_nb_ranges(&input, &obs);
